@@ -102,7 +102,7 @@ LitLines(v, p, n, maxlit, def, acc) ==
   ELSE Let(LitTok(v, p, maxlit, def), LAMBDA t :
        IF ~t[1] THEN Bad(acc, v, p)
        ELSE IF ~Is(v, t[3], NL) THEN Bad(acc, v, t[3])
-       ELSE LitLines(v, t[3] + 1, Pred(n), maxlit, def, Append(acc, <<"lit", DStr(t[2])>>)))
+       ELSE LitLines(v, t[3] + 1, Pred(n), maxlit, def, Append(acc, <<<<"lit", DStr(t[2])>>, t[3] + 1>>)))
 
 \* the rest of a latch line behind the next-state literal (which ends at q): "\n" | " init\n"
 \* <<TRUE, kind, next>> | Bad;  st: the latch's own literal
@@ -123,7 +123,7 @@ LatchLines(v, p, n, maxlit, binary, code, acc) ==
          IF ~nx[1] THEN Bad(acc, v, p)
          ELSE Let(LatchInit(v, nx[3], maxlit, code, acc), LAMBDA k :
               IF ~k[1] THEN k
-              ELSE LatchLines(v, k[3], Pred(n), maxlit, binary, Add(code, <<2>>), Append(acc, <<"latch", DStr(nx[2]), k[2]>>))))
+              ELSE LatchLines(v, k[3], Pred(n), maxlit, binary, Add(code, <<2>>), Append(acc, <<<<"latch", DStr(nx[2]), k[2]>>, k[3]>>))))
     ELSE Let(LitTok(v, p, maxlit, TRUE), LAMBDA st :
          IF ~st[1] THEN Bad(acc, v, p)
          ELSE IF ~Is(v, st[3], SP) THEN Bad(acc, v, st[3])
@@ -132,7 +132,7 @@ LatchLines(v, p, n, maxlit, binary, code, acc) ==
               ELSE Let(LatchInit(v, nx[3], maxlit, st[2], acc), LAMBDA k :
                    IF ~k[1] THEN k
                    ELSE LatchLines(v, k[3], Pred(n), maxlit, binary, code,
-                                   Append(acc, <<"latch", DStr(st[2]), DStr(nx[2]), k[2]>>)))))
+                                   Append(acc, <<<<"latch", DStr(st[2]), DStr(nx[2]), k[2]>>, k[3]>>)))))
 
 \* justice sizes: n count lines whose sum has to fit usize; <<TRUE, acc, next, total>>
 RECURSIVE SizeLines(_, _, _, _, _)
@@ -141,7 +141,7 @@ SizeLines(v, p, n, acc, total) ==
   ELSE Let(NumTok(v, p, Sub(UsizeMax, total)), LAMBDA t :
        IF ~t[1] THEN Bad(acc, v, p)
        ELSE IF ~Is(v, t[3], NL) THEN Bad(acc, v, t[3])
-       ELSE SizeLines(v, t[3] + 1, Pred(n), Append(acc, <<"size", DStr(t[2])>>), Add(total, t[2])))
+       ELSE SizeLines(v, t[3] + 1, Pred(n), Append(acc, <<<<"size", DStr(t[2])>>, t[3] + 1>>), Add(total, t[2])))
 
 \* ASCII and-gates "out in0 in1"
 RECURSIVE AndLines(_, _, _, _, _)
@@ -156,7 +156,7 @@ AndLines(v, p, n, maxlit, acc) ==
        ELSE Let(LitTok(v, a[3] + 1, maxlit, FALSE), LAMBDA b :
        IF ~b[1] THEN Bad(acc, v, a[3] + 1)
        ELSE IF ~Is(v, b[3], NL) THEN Bad(acc, v, b[3])
-       ELSE AndLines(v, b[3] + 1, Pred(n), maxlit, Append(acc, <<"and", DStr(o[2]), DStr(a[2]), DStr(b[2])>>)))))
+       ELSE AndLines(v, b[3] + 1, Pred(n), maxlit, Append(acc, <<<<"and", DStr(o[2]), DStr(a[2]), DStr(b[2])>>, b[3] + 1>>)))))
 
 \* one 7-bit encoded number at p: <<TRUE, digits, next>>; the last byte of the code (None if the input ends first)
 RECURSIVE VarintEnd(_, _)
@@ -181,7 +181,7 @@ AndDeltas(v, p, n, code, acc) ==
        ELSE Let(Sub(code, d0[2]), LAMBDA in0 :
        Let(Varint(v, d0[3]), LAMBDA d1 :
        IF ~d1[1] \/ ~Leq(d1[2], in0) THEN BadCode(acc, v, d0[3])
-       ELSE AndDeltas(v, d1[3], Pred(n), Add(code, <<2>>), Append(acc, <<"and", DStr(in0), DStr(Sub(in0, d1[2]))>>)))))
+       ELSE AndDeltas(v, d1[3], Pred(n), Add(code, <<2>>), Append(acc, <<<<"and", DStr(in0), DStr(Sub(in0, d1[2]))>>, d1[3]>>)))))
 
 \* ---- UTF-8 (as std::str::from_utf8): the length of the longest valid prefix of v[from+1 .. to] --------
 Cont(b) == b # None /\ b >= 128 /\ b <= 191
@@ -217,7 +217,7 @@ Symbols(v, p, counts, acc) ==
             IF At(v, e) = None THEN <<FALSE, acc, e, e>>
             ELSE IF u < e THEN <<FALSE, acc, u, u>>
             ELSE Symbols(v, e + 1, counts,
-                         Append(acc, <<"sym", SymNames[k], DStr(ix[2]), SubSeq(v, ix[3] + 2, e)>>)))
+                         Append(acc, <<<<"sym", SymNames[k], DStr(ix[2]), SubSeq(v, ix[3] + 2, e)>>, e + 1>>)))
 
 \* optional comment: "c\n" then valid UTF-8 up to a final newline
 Comment(v, p) ==
@@ -226,20 +226,21 @@ Comment(v, p) ==
   ELSE IF ~Is(v, p + 1, NL) THEN Bad(<<>>, v, p + 1)
   ELSE LET u == Utf8Valid(v, p + 2, Len(v)) IN
        IF u < Len(v) THEN <<FALSE, <<>>, u, u>>
-       ELSE IF p + 2 = Len(v) THEN <<TRUE, <<<<"comment", <<>>>>>>, Len(v)>>
-       ELSE IF v[Len(v)] = NL THEN <<TRUE, <<<<"comment", SubSeq(v, p + 3, Len(v) - 1)>>>>, Len(v)>>
+       ELSE IF p + 2 = Len(v) THEN <<TRUE, <<<<<<"comment", <<>>>>, Len(v)>>>>, Len(v)>>
+       ELSE IF v[Len(v)] = NL THEN <<TRUE, <<<<<<"comment", SubSeq(v, p + 3, Len(v) - 1)>>, Len(v)>>>>, Len(v)>>
        ELSE <<FALSE, <<>>, Len(v), Len(v)>>
 
 \* ---- whole file ---------------------------------------------------------------------------------
 \* the sections in file order; `sec` returns <<TRUE, items, next(, ..)>> or <<FALSE, items, lo, hi>>
 Fail(done, r) == <<"bad", done \o r[2], r[3], r[4]>>
-ReadLoc(v, binary, ty) ==
+\* every item comes with the offset just behind its last byte: <<item, end>>
+ReadLocE(v, binary, ty) ==
   Let(Header(v, IF binary THEN <<97, 105, 103>> ELSE <<97, 97, 103>>, ty), LAMBDA h :
   IF ~h[1] THEN Fail(<<>>, h)
   ELSE
   LET f == h[2]
       maxlit == TwicePlus1(f[1])
-      hdr == <<<<"hdr", DStr(f[1]), DStr(f[2]), DStr(f[3]), DStr(f[4]), DStr(f[5]), DStr(f[6]), DStr(f[7]), DStr(f[8]), DStr(f[9])>>>>
+      hdr == <<<<<<"hdr", DStr(f[1]), DStr(f[2]), DStr(f[3]), DStr(f[4]), DStr(f[5]), DStr(f[6]), DStr(f[7]), DStr(f[8]), DStr(f[9])>>, h[3]>>>>
   IN
   Let(IF binary THEN <<TRUE, <<>>, h[3]>> ELSE LitLines(v, h[3], f[2], maxlit, TRUE, <<>>), LAMBDA ins :
   IF ~ins[1] THEN Fail(hdr, ins) ELSE
@@ -276,6 +277,11 @@ ReadLoc(v, binary, ty) ==
   IF ~co[1] THEN Fail(d10, co)
   ELSE <<"ok", d10 \o co[2]>>
   ))))))))))))))))))))))
+
+Items(ps) == [i \in 1..Len(ps) |-> ps[i][1]]
+Ends(ps) == [i \in 1..Len(ps) |-> ps[i][2]]
+ReadLoc(v, binary, ty) ==
+  Let(ReadLocE(v, binary, ty), LAMBDA r : IF r[1] = "ok" THEN <<"ok", Items(r[2])>> ELSE <<"bad", Items(r[2]), r[3], r[4]>>)
 
 \* the reading without locations, for a parser of the widest literal type
 Read(v, binary) == Let(ReadLoc(v, binary, "usize"), LAMBDA r : <<r[1], r[2]>>)
